@@ -557,6 +557,22 @@ func (in *zvfVInst) exec(op, arg string) (res zvfVRes) {
 						}
 					}
 				}
+				// the key's own algorithm (what an SSH client negotiates for a non-RSA key, or ssh-rsa) selects the
+				// default signature: it must be produced whenever the plain Sign call produces one
+				own := sg.PublicKey().Type()
+				if pk, err := ssh.ParsePublicKey(sg.PublicKey().Marshal()); err == nil { // signers of the agent client carry wire-form keys
+					own = pk.Type()
+					if c, ok := pk.(*ssh.Certificate); ok {
+						own = c.Key.Type()
+					}
+				}
+				_, plainErr := sg.Sign(rand.Reader, data)
+				sig, err := as.SignWithAlgorithm(rand.Reader, data, own)
+				if plainErr == nil && err != nil {
+					r.By = "algrefused:" + own + ":" + in.idOf(sg.PublicKey().Marshal())
+				} else if err == nil && sg.PublicKey().Verify(data, sig) != nil {
+					r.By = "badsignature:" + own + ":" + in.idOf(sg.PublicKey().Marshal())
+				}
 			}
 		}
 		return r
